@@ -9,6 +9,8 @@ property fails is recorded as a theorem about the model: adopting an earlier cut
 the local `last_frame` of the dropped player.
 -/
 import GgrsModel.Model.Inventory
+import GgrsModel.Model.Sites.P2pSession
+import GgrsModel.Model.Sites.Protocol
 import GgrsModel.Model.P2P
 import GgrsModel.Proofs.DropWorld
 
